@@ -6,6 +6,7 @@
   could raise AttributeError.)
 -/
 import Msmart.Lemmas.Contained
+import Msmart.Lemmas.CodecEqLan
 import Msmart.Props.C12
 
 namespace Msmart.Props.C14
@@ -228,5 +229,25 @@ theorem history_contained (ops : List HOp) (r : Run) : OnlyEmit (runH r ops) := 
 
 example : ∃ r', runH { dev := {}, replies := [[], [[0xAA]], []], counter := 7, sent := [] } [.refresh, .tweak (fun d => { d with power := true }), .toggleDisplay] = .ok r' :=
   ⟨_, rfl⟩
+
+/-! ### the dispatch of `Response.construct` as translated from the source text -/
+
+/-- **C14 about the translated `Response.construct` / `_construct`** (everything up to the call of the response class): on ANY
+    byte string it either selects a class and a payload or fails with InvalidFrameException / InvalidResponseException - the two
+    exceptions the device layer catches - and with nothing else (IndexError is mapped by the translated `try … except`). -/
+theorem construct_dispatch_contained_code (frame : Bytes) (e : Err)
+    (h : Generated.Codec.constructOuter frame = .error e) : e = .invalidFrame ∨ e = .invalidResponse := by
+  rw [CodecEq.constructOuter_eq] at h
+  cases hd : constructDispatch frame with
+  | ok r => rw [hd] at h; cases h
+  | error e0 =>
+    rw [hd] at h
+    rcases CodecEq.constructDispatch_errs hd with r | r | r
+    · subst r; cases h; exact .inl rfl
+    · subst r; cases h; exact .inr rfl
+    · subst r
+      have : Py.mapErr "IndexError" Err.invalidResponse (Except.error indexError : R (Int × Bytes)) = .error .invalidResponse := by
+        rfl
+      rw [this] at h; cases h; exact .inr rfl
 
 end Msmart.Props.C14
